@@ -357,3 +357,379 @@ Proof.
       destruct (take_exact_spec _ _ _ _ T) as (_ & -> & Hl & _). rewrite skipn_length in IH. cbn [length]. lia.
     + injection E1 as _ <-. cbn [length] in IH. lia.
 Qed.
+
+(* ---------- one field of the compiled decoder ---------- *)
+Lemma reslice_ok (reslice : bool) np D sl : np <= blen D -> byte_list D ->
+  exec_fs (if reslice then [DReslice np] else []) D sl =
+    DOk (Next (if reslice then skipn (N.to_nat np) D else D) sl) /\
+  (if reslice then 0 else np) <= blen (if reslice then skipn (N.to_nat np) D else D) /\
+  skipn (N.to_nat (if reslice then 0 else np)) (if reslice then skipn (N.to_nat np) D else D) = skipn (N.to_nat np) D /\
+  byte_list (if reslice then skipn (N.to_nat np) D else D).
+Proof.
+  intros H HD. destruct reslice.
+  - cbn [exec_fs exec_f]. rewrite (drop_ok _ _ H). cbn [dbind]. repeat split; [lia|apply byte_list_skipn, HD].
+  - repeat split; assumption.
+Qed.
+
+Lemma guard_ok gl D1 sl :
+  gl = [] \/ (exists k, gl = [DGuardLt k] /\ k <= blen D1) -> exec_fs gl D1 sl = DOk (Next D1 sl).
+Proof.
+  intros [->|(k & -> & Hk)]; [reflexivity|]. cbn [exec_fs exec_f].
+  replace (blen D1 <? k) with false by (symmetry; apply N.ltb_ge; exact Hk). reflexivity.
+Qed.
+
+Definition fbits_ok (f : fkind) : bool := match f with FBits b bit _ => bits_fit b bit | _ => true end.
+
+Section Step.
+  Variables (g : gtype) (i pos : N) (D : bytes) (pre Z : list value).
+  Hypothesis Hi : i = N.of_nat (length pre).
+  Hypothesis Hp : pos <= blen D.
+  Hypothesis HD : byte_list D.
+
+  Let M := skipn (N.to_nat pos) D.
+
+  (* a store followed by the optional reslice *)
+  Lemma store_reslice st (reslice : bool) np zero v :
+    exec_f st D (pre ++ zero :: Z) = DOk (Next D (pre ++ v :: Z)) -> np <= blen D ->
+    exec_fs ((st :: (if reslice then [DReslice np] else [])) ++ []) D (pre ++ zero :: Z) =
+      DOk (Next (if reslice then skipn (N.to_nat np) D else D) (pre ++ v :: Z)).
+  Proof.
+    intros E Hn. rewrite app_nil_r. cbn [exec_fs]. rewrite E. cbn [dbind].
+    destruct (reslice_ok reslice np D (pre ++ v :: Z) Hn HD) as (R & _). exact R.
+  Qed.
+
+  Lemma field_step f (reslice : bool) gl v1 M1 :
+    f <> FRest -> dec1 f M = Some (v1, M1) -> fbits_ok f = true -> fdecl_ok f g ->
+    (f_fixed f = false -> reslice = true) -> (f_partial f = true -> reslice = false) ->
+    (gl = [] \/ (f_fixed f = false /\ exists k, gl = [DGuardLt k] /\ k <= blen M1)) ->
+    exists D1, exec_fs (field_stmts f g i pos reslice ++ gl) D (pre ++ fzero f ++ Z) = DOk (Next D1 (pre ++ fslots v1 ++ Z)) /\
+      (if reslice then 0 else if f_partial f then pos else pos + f_min f) <= blen D1 /\
+      M1 = skipn (N.to_nat (if reslice then 0 else if f_partial f then pos else pos + f_min f)) D1 /\ byte_list D1.
+  Proof.
+    intros Hnr E Hb Hd Hvar Hpart Hgl. unfold M in *.
+    destruct f as [size|bits bit partial|size|n|esize| | |]; cbn [dec1 f_fixed f_partial f_min fzero field_stmts] in *;
+      try (destruct Hgl as [->|(Hc & _)]; [|discriminate Hc]).
+    - (* FNum *)
+      destruct (take_exact size (skipn (N.to_nat pos) D)) as [[e r]|] eqn:T; [|discriminate]. injection E as <- <-.
+      destruct (read_be_take size pos D e r Hp T) as (_ & L & ->).
+      destruct (reslice_ok reslice (pos + N.of_nat size) D (pre ++ VNum (from_be e 0) :: Z) L HD) as (_ & A & B & C).
+      eexists. split; [|split; [exact A|split; [symmetry; exact B|exact C]]].
+      cbn [app fslots flat_map fslot]. apply store_reslice; [|exact L].
+      cbn [exec_f]. rewrite (value_of_num size g pos D e _ Hp T). cbn [dbind]. rewrite (setN_at _ _ _ _ _ Hi). reflexivity.
+    - (* FBits *)
+      destruct (skipn (N.to_nat pos) D) as [|b r'] eqn:EM; [discriminate|]. injection E as <- <-.
+      assert (Hb256 : b < 256).
+      { pose proof (byte_list_skipn (N.to_nat pos) D HD) as HM. rewrite EM in HM. inversion HM; assumption. }
+      assert (L : pos + 1 <= blen D).
+      { pose proof (blen_skipn D (N.to_nat pos)) as X. rewrite EM in X. unfold blen in *. cbn [length] in X. lia. }
+      assert (Er : r' = skipn (N.to_nat (pos + 1)) D).
+      { replace (N.to_nat (pos + 1)) with (N.to_nat pos + 1)%nat by lia. rewrite <- skipn_skipn', EM. reflexivity. }
+      assert (St : exec_f (DStore i (value_of (FBits bits bit partial) g pos)) D (pre ++ VNum 0 :: Z) =
+                   DOk (Next D (pre ++ VNum (N.shiftr b (N.of_nat (8 - bits - bit)) mod 2 ^ N.of_nat bits) :: Z))).
+      { cbn [exec_f]. rewrite (value_of_bits bits bit partial g pos D b r' Hp EM Hb256 Hb Hd). cbn [dbind].
+        rewrite (setN_at _ _ _ _ _ Hi). reflexivity. }
+      destruct partial.
+      + rewrite (Hpart eq_refl). eexists. split; [|split; [exact Hp|split; [symmetry; exact EM|exact HD]]].
+        cbn [app fslots flat_map fslot exec_fs]. rewrite St. reflexivity.
+      + destruct (reslice_ok reslice (pos + 1) D (pre ++ VNum 0 :: Z) L HD) as (_ & A & B & C).
+        cbv iota. eexists. split; [|split; [exact A|split; [exact (eq_trans Er (eq_sym B))|exact C]]].
+        cbn [app fslots flat_map fslot]. apply store_reslice; [exact St|exact L].
+    - (* FPad *)
+      destruct (take_exact size (skipn (N.to_nat pos) D)) as [[e r]|] eqn:T; [|discriminate]. injection E as <- <-.
+      destruct (read_be_take size pos D e r Hp T) as (_ & L & ->).
+      destruct (reslice_ok reslice (pos + N.of_nat size) D (pre ++ Z) L HD) as (R & A & B & C).
+      eexists. split; [|split; [exact A|split; [symmetry; exact B|exact C]]].
+      rewrite app_nil_r. cbn [app fslots flat_map]. exact R.
+    - (* FFixed *)
+      destruct (take_exact n (skipn (N.to_nat pos) D)) as [[e r]|] eqn:T; [|discriminate]. injection E as <- <-.
+      destruct (read_be_take n pos D e r Hp T) as (_ & L & ->).
+      destruct (take_exact_spec _ _ _ _ T) as (-> & _ & Hl & _).
+      destruct (reslice_ok reslice (pos + N.of_nat n) D (pre ++ VBytes [] :: Z) L HD) as (_ & A & B & C).
+      eexists. split; [|split; [exact A|split; [symmetry; exact B|exact C]]].
+      cbn [app fslots flat_map fslot]. apply store_reslice; [|exact L].
+      cbn [exec_f]. rewrite (drop_ok _ _ Hp). cbn [dbind]. rewrite Nat2N.id, (copy_n_enough _ _ Hl).
+      rewrite (setN_at _ _ _ _ _ Hi). reflexivity.
+    - (* FCounted *)
+      rewrite (Hvar eq_refl).
+      destruct (take_u16 (skipn (N.to_nat pos) D)) as [[cnt r]|] eqn:U; [|discriminate].
+      destruct (take_nums (N.to_nat cnt) esize r) as [[ns r1]|] eqn:T; [|discriminate]. injection E as <- <-.
+      destruct (read_u16 pos D cnt r Hp U) as (R & L & ->).
+      destruct (read_elems_ok esize D _ _ _ _ L T) as (RE & L2 & Er1). rewrite N2Nat.id in L2, Er1. subst r1.
+      set (m := match esize with 1%nat => 1 | _ => N.of_nat esize end).
+      assert (Hm : m = N.of_nat esize) by (unfold m; destruct esize as [|[|]]; reflexivity).
+      exists (skipn (N.to_nat (pos + 2 + cnt * N.of_nat esize)) D).
+      split; [|split; [lia|split; [reflexivity|apply byte_list_skipn, HD]]].
+      rewrite exec_fs_app. cbn [exec_fs exec_f]. rewrite R. cbn [dbind]. rewrite (after_len_ok _ _ L). cbn [dbind].
+      replace (blen D - (pos + 2) <? cnt * m) with false by (symmetry; apply N.ltb_ge; lia).
+      assert (G : exec_fs gl (skipn (N.to_nat (pos + 2 + cnt * N.of_nat esize)) D) (pre ++ fslots [VNums ns] ++ Z)
+                  = DOk (Next (skipn (N.to_nat (pos + 2 + cnt * N.of_nat esize)) D) (pre ++ fslots [VNums ns] ++ Z))).
+      { apply guard_ok. destruct Hgl as [->|(_ & k & -> & Hk)]; [now left|right; eauto]. }
+      destruct (N.eqb_spec cnt 0) as [->|Hc]; cbn [negb].
+      + (* no elements: the slot keeps its zero value *)
+        change (N.to_nat 0) with 0%nat in T. cbn [take_nums] in T. injection T as <- _.
+        rewrite (drop_ok _ _ L). cbn [dbind].
+        replace (pos + 2 + 0 * N.of_nat esize) with (pos + 2) in * by lia. exact G.
+      + assert (RX : (match arr_mode g esize with
+                      | ACopy => dbind (drop (pos + 2) D) (fun src => DOk (copy_n (N.to_nat cnt) src))
+                      | ALoop1 => read_elems (N.to_nat cnt) 1 (pos + 2) 1 D
+                      | ALoopN esz step => read_elems (N.to_nat cnt) esz (pos + 2) step D
+                      end) = DOk ns).
+        { unfold arr_mode. destruct (snd g) eqn:Sg.
+          - (* []byte: copy *)
+            cbn [fdecl_ok] in Hd. specialize (Hd Sg). subst esize. rewrite (drop_ok _ _ L). cbn [dbind]. f_equal.
+            rewrite (take_nums_1 _ _ _ _ T). apply copy_n_enough. rewrite skipn_length. unfold blen in L2. lia.
+          - destruct esize as [|[|e']]; exact RE.
+          - destruct esize as [|[|e']]; exact RE.
+          - destruct esize as [|[|e']]; exact RE.
+          - destruct esize as [|[|e']]; exact RE. }
+        rewrite RX. cbn [dbind]. rewrite drop_ok by lia. cbn [dbind].
+        cbn [app]. rewrite (setN_at _ _ _ _ _ Hi).
+        replace (cnt * m + (pos + 2)) with (pos + 2 + cnt * N.of_nat esize) by lia. exact G.
+    - (* FString *)
+      rewrite (Hvar eq_refl).
+      destruct (take_u16 (skipn (N.to_nat pos) D)) as [[cnt r]|] eqn:U; [|discriminate].
+      destruct (take_exact (N.to_nat cnt) r) as [[e r1]|] eqn:T; [|discriminate]. injection E as <- <-.
+      destruct (read_u16 pos D cnt r Hp U) as (R & L & ->).
+      destruct (read_be_take _ _ _ _ _ L T) as (_ & L2 & ->). rewrite N2Nat.id in L2.
+      destruct (take_exact_spec _ _ _ _ T) as (-> & _ & Hl & _).
+      exists (skipn (N.to_nat (pos + 2 + cnt)) D).
+      split; [|split; [lia|split; [rewrite N2Nat.id; reflexivity|apply byte_list_skipn, HD]]].
+      rewrite exec_fs_app. cbn [exec_fs exec_f]. rewrite R. cbn [dbind]. rewrite (after_len_ok _ _ L). cbn [dbind].
+      replace (blen D - (pos + 2) <? cnt) with false by (symmetry; apply N.ltb_ge; lia).
+      assert (G : forall sl, exec_fs gl (skipn (N.to_nat (pos + 2 + cnt)) D) sl = DOk (Next (skipn (N.to_nat (pos + 2 + cnt)) D) sl)).
+      { intros sl. apply guard_ok. destruct Hgl as [->|(_ & k & -> & Hk)]; [now left|right]. rewrite N2Nat.id in Hk. eauto. }
+      destruct (N.eqb_spec cnt 0) as [->|Hc]; cbn [negb].
+      + rewrite (drop_ok _ _ L). cbn [dbind]. change (N.to_nat 0) with 0%nat. cbn [firstn fslots flat_map fslot app].
+        replace (pos + 2 + 0) with (pos + 2) in * by lia. apply G.
+      + rewrite slice_ok by lia. cbn [dbind]. rewrite drop_ok by lia. cbn [dbind].
+        cbn [app]. rewrite (setN_at _ _ _ _ _ Hi).
+        replace (cnt + (pos + 2) - (pos + 2)) with cnt by lia.
+        replace (cnt + (pos + 2)) with (pos + 2 + cnt) by lia. apply G.
+    - (* FBitArr *)
+      rewrite (Hvar eq_refl).
+      destruct (take_u16 (skipn (N.to_nat pos) D)) as [[nbits r]|] eqn:U; [|discriminate].
+      destruct (take_exact (N.to_nat (bitarr_nbytes nbits)) r) as [[e r1]|] eqn:T; [|discriminate]. injection E as <- <-.
+      destruct (read_u16 pos D nbits r Hp U) as (R & L & ->).
+      destruct (read_be_take _ _ _ _ _ L T) as (_ & L2 & ->). rewrite N2Nat.id in L2.
+      destruct (take_exact_spec _ _ _ _ T) as (-> & _ & Hl & _).
+      set (nb := bitarr_nbytes nbits) in *.
+      exists (skipn (N.to_nat (pos + 2 + nb)) D).
+      split; [|split; [lia|split; [rewrite N2Nat.id; reflexivity|apply byte_list_skipn, HD]]].
+      rewrite exec_fs_app. cbn [exec_fs exec_f]. rewrite R. cbn [dbind]. rewrite (after_len_ok _ _ L). cbn [dbind].
+      rewrite nbytes_Z. fold nb.
+      replace (Z.of_N (blen D - (pos + 2)) <? Z.of_N nb)%Z with false by (symmetry; apply Z.ltb_ge; lia).
+      assert (G : forall sl, exec_fs gl (skipn (N.to_nat (pos + 2 + nb)) D) sl = DOk (Next (skipn (N.to_nat (pos + 2 + nb)) D) sl)).
+      { intros sl. apply guard_ok. destruct Hgl as [->|(_ & k & -> & Hk)]; [now left|right]. rewrite N2Nat.id in Hk. eauto. }
+      assert (Hi1 : i + 1 = N.of_nat (length (pre ++ [VNum nbits]))) by (rewrite app_length; cbn [length]; lia).
+      assert (S1 : setN (pre ++ [VNum 0; VBytes []] ++ Z) i (VNum nbits) = (pre ++ [VNum nbits]) ++ VBytes [] :: Z).
+      { cbn [app]. rewrite (setN_at _ _ _ _ _ Hi), <- app_assoc. reflexivity. }
+      rewrite S1.
+      destruct (Z.eqb_spec (Z.of_N nb) 0) as [Hz|Hz]; cbn [negb].
+      + assert (Hz' : nb = 0) by lia. rewrite Hz' in *. rewrite (drop_ok _ _ L). cbn [dbind].
+        change (N.to_nat 0) with 0%nat. cbn [firstn fslots flat_map fslot app]. rewrite <- app_assoc. cbn [app].
+        replace (pos + 2 + 0) with (pos + 2) in * by lia. apply G.
+      + replace (Z.of_N nb <? 0)%Z with false by (symmetry; apply Z.ltb_ge; lia).
+        rewrite (drop_ok _ _ L). cbn [dbind]. rewrite N2Z.id. rewrite drop_ok by lia. cbn [dbind].
+        rewrite (setN_at _ _ _ _ _ Hi1). rewrite <- Z_N_nat, N2Z.id.
+        rewrite copy_n_enough by exact Hl.
+        cbn [fslots flat_map fslot app]. rewrite <- app_assoc. cbn [app].
+        replace (nb + (pos + 2)) with (pos + 2 + nb) by lia. apply G.
+    - (* FRest *) contradiction Hnr; reflexivity.
+  Qed.
+End Step.
+
+(* ---------- the Go struct declaration along the fields ---------- *)
+Lemma fields_ok_cons f r dd dd' dpre : fields_ok (f :: r) dd = Some dd' ->
+  fdecl_ok f (gnth (dpre ++ dd) (N.of_nat (length dpre))) /\
+  exists gs dd1, dd = gs ++ dd1 /\ N.of_nat (length gs) = slots f /\ fields_ok r dd1 = Some dd'.
+Proof.
+  intros H.
+  assert (Gen : forall g d', dd = g :: d' -> field_ok f g = true -> fields_ok r d' = Some dd' -> slots f = 1 ->
+                fdecl_ok f (gnth (dpre ++ dd) (N.of_nat (length dpre))) /\
+                exists gs dd1, dd = gs ++ dd1 /\ N.of_nat (length gs) = slots f /\ fields_ok r dd1 = Some dd').
+  { intros g d' -> Hf Hr Hs. split.
+    - rewrite (gnth_at' dpre g d' _ eq_refl). apply field_ok_decl, Hf.
+    - exists [g], d'. rewrite Hs. repeat split. exact Hr. }
+  destruct f; cbn [fields_ok] in H;
+    try (destruct dd as [|g d']; [discriminate|]; destruct (field_ok _ g) eqn:Hf; [|discriminate];
+         apply (Gen g d' eq_refl Hf H eq_refl)).
+  - (* FPad *) split; [exact I|]. exists [], dd. repeat split. exact H.
+  - (* FBitArr *) split; [exact I|].
+    destruct dd as [|g1 [|g2 d']]; try discriminate H;
+      repeat (match type of H with context [match ?x with _ => _ end] => destruct x end; try discriminate H).
+    eexists [_; _], _. repeat split. exact H.
+Qed.
+
+Lemma dec1_slots f M v1 M1 : dec1 f M = Some (v1, M1) -> N.of_nat (length (fslots v1)) = slots f.
+Proof.
+  destruct f; cbn [dec1 slots]; intros H;
+    repeat (match type of H with context [match ?x with _ => _ end] => destruct x end; try discriminate H);
+    injection H as <- _; reflexivity.
+Qed.
+
+Lemma fzero_slots f : N.of_nat (length (fzero f)) = slots f.
+Proof. destruct f; reflexivity. Qed.
+
+Lemma fslots_app a b : fslots (a ++ b) = fslots a ++ fslots b.
+Proof. unfold fslots. apply flat_map_app. Qed.
+
+(* ---------- all fields ---------- *)
+Section Fields.
+  Variable d : list gtype.
+  Variable hs : bool.
+  Variable S : list value.   (* the slots of the sub-parameters *)
+
+  Definition fend (fs : list fkind) (pos : N) (r : bytes) (final : list value) (fl : flow) : Prop :=
+    match fl with
+    | Done sl => sl = final /\ has_rest fs = true /\ r = []
+    | Next D' sl => sl = final /\ byte_list D' /\
+        ((has_rest fs = true /\ r = []) \/
+         (fpos fs hs pos <= blen D' /\ r = skipn (N.to_nat (fpos fs hs pos)) D'))
+    end.
+
+  Lemma fields_sim : forall fs dd dd' dpre i pos known D pre vs r,
+    d = dpre ++ dd -> i = N.of_nat (length dpre) -> i = N.of_nat (length pre) ->
+    fields_ok fs dd = Some dd' -> fs_ok fs = true ->
+    pos <= blen D -> byte_list D ->
+    dec_fields fs (skipn (N.to_nat pos) D) = Some (vs, r) ->
+    exists fl, exec_fs (fst (compile_dfields d fs hs i pos known)) D (pre ++ fzeros fs ++ S) = DOk fl /\
+               fend fs pos r (pre ++ fslots vs ++ S) fl.
+  Proof.
+    induction fs as [|f fs IH]; intros dd dd' dpre i pos known D pre vs r Hd Hi Hi' Hfo Hok Hp HD H.
+    - cbn in H. injection H as <- <-. exists (Next D (pre ++ S)). split; [reflexivity|].
+      cbn [fend fpos fslots flat_map app]. repeat split; try assumption. right. split; [assumption|reflexivity].
+    - rewrite dec_fields_cons in H.
+      destruct (dec1 f (skipn (N.to_nat pos) D)) as [[v1 M1]|] eqn:E1; [|discriminate].
+      destruct (dec_fields fs M1) as [[vs' r']|] eqn:E2; [|discriminate]. injection H as <- <-.
+      destruct (compile_dfields_cons d f fs hs i pos known) as (known' & ->).
+      destruct (fields_ok_cons f fs dd dd' dpre Hfo) as (Hdecl & gs & dd1 & -> & Hgs & Hfo').
+      rewrite <- Hd, <- Hi in Hdecl.
+      assert (Hfr : {f = FRest} + {f <> FRest}) by (destruct f; (now left) || (right; discriminate)).
+      destruct Hfr as [->|Hnr].
+      + (* FRest: last *)
+        cbn [fs_ok] in Hok. destruct fs; [|discriminate]. cbn [dec1] in E1. injection E1 as <- <-.
+        cbn in E2. injection E2 as <- <-.
+        cbn [f_fixed negb orb andb field_stmts compile_dfields fst app fzeros fzero flat_map fslots fslot].
+        cbn [exec_fs exec_f].
+        assert (Hlen : length (skipn (N.to_nat pos) D) = N.to_nat (blen D - pos)).
+        { rewrite skipn_length. unfold blen. lia. }
+        destruct (Z.eqb_spec (Z.of_N (blen D) - Z.of_N pos) 0) as [Hz|Hz].
+        * exists (Done (pre ++ VBytes [] :: S)). split; [reflexivity|]. cbn [fend has_rest existsb orb].
+          assert (E0 : skipn (N.to_nat pos) D = []) by (apply length_zero_iff_nil; lia).
+          rewrite E0. repeat split.
+        * replace (blen D <? pos) with false by (symmetry; apply N.ltb_ge; lia).
+          rewrite (drop_ok _ _ Hp). cbn [dbind]. rewrite (setN_at _ _ _ _ _ Hi').
+          rewrite copy_n_enough by lia. rewrite <- Hlen, firstn_all.
+          eexists. split; [reflexivity|]. cbn [fend has_rest existsb orb].
+          repeat split; [apply byte_list_skipn, HD|]. left. split; reflexivity.
+      + (* any other field, then the rest *)
+        assert (Hparts : fbits_ok f = true /\ (f_partial f = true -> fs <> []) /\ fs_ok fs = true).
+        { destruct f; cbn [fs_ok fbits_ok f_partial] in *; try (repeat split; [discriminate|exact Hok]).
+          - apply andb_true_iff in Hok as [Hok H3]. apply andb_true_iff in Hok as [H1 H2].
+            repeat split; try assumption. intros -> ->. discriminate H2.
+          - contradiction Hnr; reflexivity. }
+        destruct Hparts as (Hb & Hpart & Hok').
+        set (reslice := negb (f_fixed f) || (match fs with [] => true | _ => false end && hs)) in *.
+        set (gl := if negb (f_fixed f) && (0 <? rest_min fs) && match f with FRest => false | _ => true end
+                   then [DGuardLt (rest_min fs)] else []).
+        assert (Hgl : gl = [] \/ (f_fixed f = false /\ exists k, gl = [DGuardLt k] /\ k <= blen M1)).
+        { unfold gl. destruct (negb (f_fixed f) && (0 <? rest_min fs) && match f with FRest => false | _ => true end) eqn:G;
+            [right|now left].
+          apply andb_true_iff in G as [G _]. apply andb_true_iff in G as [G _]. apply negb_true_iff in G.
+          split; [exact G|]. eexists. split; [reflexivity|].
+          pose proof (dec_fields_len _ _ _ _ E2). lia. }
+        destruct (field_step (gnth d i) i pos D pre (fzeros fs ++ S) Hi' Hp HD f reslice gl v1 M1 Hnr E1 Hb Hdecl)
+          as (D1 & Hex & Hp1 & HM1 & HD1); [| |exact Hgl|].
+        { intros Hf. unfold reslice. rewrite Hf. reflexivity. }
+        { intros Hf. unfold reslice. assert (Hfx : f_fixed f = true) by (destruct f; try discriminate Hf; reflexivity).
+          rewrite Hfx. specialize (Hpart Hf). destruct fs; [contradiction|reflexivity]. }
+        set (pos1 := if reslice then 0 else if f_partial f then pos else pos + f_min f) in *.
+        pose proof (dec1_slots _ _ _ _ E1) as Hsl.
+        destruct (IH dd1 dd' (dpre ++ gs) (i + slots f) pos1 known' D1 (pre ++ fslots v1) vs' r') as (fl & Hfl & Hend);
+          try assumption.
+        { rewrite Hd, <- app_assoc. reflexivity. }
+        { rewrite app_length. lia. }
+        { rewrite app_length. lia. }
+        { rewrite <- HM1. exact E2. }
+        exists fl. split.
+        * rewrite app_assoc, exec_fs_app.
+          change (fzeros (f :: fs)) with (fzero f ++ fzeros fs). rewrite <- (app_assoc (fzero f)).
+          rewrite Hex. cbn [dbind]. rewrite <- app_assoc in Hfl. exact Hfl.
+        * assert (Hhr : has_rest (f :: fs) = has_rest fs).
+          { unfold has_rest. cbn [existsb]. destruct f; try reflexivity. contradiction Hnr; reflexivity. }
+          assert (Hfp : fpos (f :: fs) hs pos = fpos fs hs pos1) by reflexivity.
+          rewrite fslots_app, <- app_assoc. rewrite <- app_assoc in Hend.
+          destruct fl as [D' sl|sl]; cbn [fend] in *; [rewrite Hhr, Hfp|rewrite Hhr]; exact Hend.
+  Qed.
+End Fields.
+
+(* the position at the end is 0 whenever the last field is resliced *)
+Lemma fpos_subs fs : forall pos, fs <> [] -> fpos fs true pos = 0.
+Proof.
+  induction fs as [|f fs IH]; intros pos H; [contradiction|]. cbn [fpos].
+  destruct fs as [|f' fs']; [cbn [fpos]; rewrite andb_true_r, orb_true_r; reflexivity|].
+  apply IH. discriminate.
+Qed.
+
+Lemma fpos_var fs hs : forall pos, fs <> [] -> f_fixed (last fs FRest) = false -> fpos fs hs pos = 0.
+Proof.
+  induction fs as [|f fs IH]; intros pos H Hl; [contradiction|]. cbn [fpos].
+  destruct fs as [|f' fs'].
+  - cbn [last] in Hl. rewrite Hl. reflexivity.
+  - apply IH; [discriminate|exact Hl].
+Qed.
+
+(* the zero receiver: the field slots *)
+Lemma fzeros_shape (F : N -> value) fs :
+  map (fun z => match z with
+                | ZNum | ZBitLen => VNum 0 | ZBytes | ZBitBytes => VBytes [] | ZNums => VNums []
+                | ZOne t => F t | ZOpt _ => VOpt None | ZMany _ => VList [] end) (shape_fields fs) = fzeros fs.
+Proof.
+  induction fs as [|f fs IH]; [reflexivity|]. cbn [shape_fields]. rewrite map_app, IH.
+  destruct f; reflexivity.
+Qed.
+
+(* reading the slots back as a tree *)
+Definition shaped1 (f : fkind) (v : value) : Prop :=
+  match f, v with
+  | FNum _, VNum _ | FBits _ _ _, VNum _ | FFixed _, VBytes _ | FCounted _, VNums _
+  | FString, VBytes _ | FBitArr, VBitArr _ _ | FRest, VBytes _ => True
+  | _, _ => False
+  end.
+
+Fixpoint shaped (fs : list fkind) (vs : list value) : Prop :=
+  match fs with
+  | [] => vs = []
+  | FPad _ :: r => shaped r vs
+  | f :: r => match vs with [] => False | v :: vs' => shaped1 f v /\ shaped r vs' end
+  end.
+
+Lemma dec_fields_shaped fs : forall M vs r, dec_fields fs M = Some (vs, r) -> shaped fs vs.
+Proof.
+  induction fs as [|f fs IH]; intros M vs r H.
+  - cbn in H. injection H as <- _. reflexivity.
+  - rewrite dec_fields_cons in H. destruct (dec1 f M) as [[v1 M1]|] eqn:E1; [|discriminate].
+    destruct (dec_fields fs M1) as [[vs' r']|] eqn:E2; [|discriminate]. injection H as <- _.
+    specialize (IH _ _ _ E2).
+    destruct f; cbn [dec1] in E1;
+      repeat (match type of E1 with context [match ?x with _ => _ end] => destruct x end; try discriminate E1);
+      injection E1 as <- _; cbn [shaped shaped1 app]; auto.
+Qed.
+
+Lemma assemble_fields (sub_shape : list zkind) (ss : list value) :
+  (forall z, In z sub_shape -> match z with ZOne _ | ZOpt _ | ZMany _ => True | _ => False end) ->
+  length sub_shape = length ss ->
+  forall fs vs, shaped fs vs ->
+  assemble (shape_fields fs ++ sub_shape) (fslots vs ++ ss) = Some (vs, ss).
+Proof.
+  intros Hz Hl. induction fs as [|f fs IH]; intros vs Hs; cbn [shaped] in Hs.
+  - subst vs. cbn [shape_fields fslots flat_map app].
+    revert ss Hl. induction sub_shape as [|z sh IHs]; intros ss Hl; destruct ss as [|v ss]; try discriminate Hl; [reflexivity|].
+    pose proof (Hz z (or_introl eq_refl)) as Hzz.
+    assert (Hrec : assemble sh ss = Some ([], ss)).
+    { apply IHs; [intros z' Hin; apply Hz; now right|]. cbn in Hl. lia. }
+    destruct z; try contradiction; cbn [assemble]; rewrite Hrec; reflexivity.
+  - destruct f; cbn [shape_fields app]; try (apply IH; exact Hs);
+      (destruct vs as [|v vs]; [contradiction|]; destruct Hs as [H1 Hs]; destruct v; try contradiction;
+       cbn [fslots flat_map fslot app assemble]; fold (fslots vs); rewrite (IH vs Hs); reflexivity).
+Qed.
